@@ -726,6 +726,7 @@ type commandExtractor struct {
 type commandKey struct {
 	command    string
 	varsDigest string
+	symRefs    int // number of symbols preceding the command on the stack
 }
 
 func newCommandExtractor(m *syntax.Model, baseSyms int) *commandExtractor {
@@ -743,7 +744,12 @@ func newCommandExtractor(m *syntax.Model, baseSyms int) *commandExtractor {
 }
 
 func (e *commandExtractor) extract(n *syntax.Nonterm, command string, vars *grammar.ActionVars, cmdOrigin status.SourceNode) lalr.Sym {
-	key := commandKey{command, vars.String()}
+	key := commandKey{command: command, varsDigest: vars.String()}
+	if vars != nil {
+		// Note: lookahead nonterminals take a stack slot without having a position in the rule,
+		// so equal digests do not imply equal stack layouts.
+		key.symRefs = vars.SymRefCount
+	}
 	if sym, ok := e.index[key]; ok {
 		return sym
 	}
